@@ -25,8 +25,8 @@ RULE = ("three streams: (A) selectVRO under subsets of {-t tags, -T tags, keep, 
         "the line; (E) tables of 2-3 lines for different products, the first mostly with -k or -t, other versions of the "
         "products already set up: each line's answer and the command's VRO afterwards.  A lookup is non-trivial when the database holds a "
         "declaration of the product for the flavor asked; distinct = distinct (database, request, VRO, mode) digests")
-TRUSTED = ["the local version order of the model's driver (dotted decimals) agrees with Eups.version_cmp / version_match "
-           "on the generator's version names (re-checked on every run); the order itself is C10's subject",
+TRUSTED = ["the driver instantiates the model's order with C10's model of version_cmp / version_match (Model/VersionCmp.lean, "
+           "verified by C10); it is compared with Eups.version_cmp / version_match on the generator's names on every run",
            "which flavors a fresh process loads for a stack (accepted cache: native + fallback flavors; rebuilt: all) is an "
            "input of the model (interface with C07); the harness checks the prediction on every cached child",
            "user tags, tag files (file:...), LOCAL: versions, the `setup` pseudo-tag and qualified tag names are outside the model"]
@@ -1217,6 +1217,9 @@ def check_order(ctx):
         for j, b in enumerate(names):
             if ans[k]["cmp"] != cm[i][j]:
                 ctx.disagree("version_cmp_on_generator_names", {"stream": "O", "a": a, "b": b}, cm[i][j], ans[k]["cmp"])
+            if not ans[k]["conv"] or ans[k]["simple"] != ans[k]["cmp"]:
+                raise common.InfraError("generator version names %r, %r: not conventional for C10's model, or its order "
+                                        "differs from the dotted-decimal one of the examples" % (a, b))
             if (cm[i][j] > 0) - (cm[i][j] < 0) != (vkey(a) > vkey(b)) - (vkey(a) < vkey(b)):
                 ctx.fail("order_is_numeric", {"stream": "O", "a": a, "b": b}, cm[i][j], ans[k]["cmp"],
                          note="version_cmp disagrees with numeric order on dotted versions")
@@ -1225,6 +1228,8 @@ def check_order(ctx):
         for j, x in enumerate(EXPRS):
             if ans[k]["match"] != mt[i][j]:
                 ctx.disagree("version_match_on_generator_names", {"stream": "O", "v": v, "x": x}, mt[i][j], ans[k]["match"])
+            if not ans[k]["ok"]:
+                raise common.InfraError("expression %r cannot be evaluated on %r by C10's model" % (x, v))
             if mt[i][j] != spec_sat(v, x):
                 ctx.fail("match_is_numeric", {"stream": "O", "v": v, "x": x}, mt[i][j], ans[k]["match"],
                          note="version_match disagrees with the numeric reading of the expression")
